@@ -127,6 +127,7 @@ template<class T> void vb_ptr_ops(rlbox_sandbox<SBX>& s)
   const tainted<T*, SBX> cp = p; auto& ce = cp[1]; auto& cd = *cp; auto* car = cp.operator->();
   (void)p1; (void)q; (void)r; (void)q2; (void)q3; (void)q4; (void)q5; (void)q6; (void)e; (void)e2; (void)e3; (void)a; (void)d; (void)ar; (void)ce; (void)cd; (void)car;
   tainted<T, SBX> v = *p; *p = v; p[1] = v; *p = p[1]; v = p[2];
+  { T plainv{}; *p = plainv; p[1] = T(1); if constexpr (std::is_integral_v<T>) { *p = 1; } v = plainv; }
   tainted<T*, SBX> ad = &d; (void)ad;
   auto c = p.copy_and_verify([](std::unique_ptr<T> x) { return x ? *x : T{}; });
   auto rg = p.copy_and_verify_range([](std::unique_ptr<T[]> x) { return x; }, 3);
